@@ -134,6 +134,20 @@ inductive ColorMode where
   | default | auto | list
 deriving Repr, DecidableEq
 
+/-- a colour limit (`vmin=` / `vmax=`) passed by the caller.  Its value is opaque; whether it is a number Python calls
+false is kept, because that is all an expression can tell about it without comparing it with data -/
+structure LimArg where
+  isZero : Bool
+deriving Repr, DecidableEq
+
+/-- where an end of the colour normalisation comes from -/
+inductive LimSrc where
+  | given      -- the value passed as `vmin` / `vmax`
+  | zlim       -- the entry of `zlims`
+  | data       -- min / max of the finite values of the colour quantity over the whole dataset (0 / 1: non-numeric)
+  | unset      -- `None` reaches the normalisation
+deriving Repr, DecidableEq
+
 structure Call where
   kind : Kind
   /-- x variable; several names for a multi-variable histogram -/
@@ -151,6 +165,11 @@ structure Call where
   colors : ColorMode := .default
   legend : Option Bool := none
   colorbar : Option Bool := none
+  vmin : Option LimArg := none
+  vmax : Option LimArg := none
+  /-- `zlims[0]` / `zlims[1]` is not None -/
+  zlimLo : Bool := false
+  zlimHi : Bool := false
 deriving Repr
 
 def Call.x1 (c : Call) : String := c.x.headD ""
@@ -185,13 +204,32 @@ def linspace01 (i n : Nat) : Rat := if n ≤ 1 then 0 else (i : Rat) / ((n - 1 :
 def carriedNames (call : Call) : List String :=
   (if call.kind == .scatter then call.c.toList else []) ++ call.yErr.toList ++ call.xErr.toList
 
+/-- the variable behind a key of the `data` dict of `gen_xy` (`x`, `y`, and the carried `c`, `ye`, `xe` when present) -/
+def dataName (call : Call) (xn yn : String) (carry : Bool) : String → Option String
+  | "x" => some xn
+  | "y" => some yn
+  | "c" => if carry && call.kind == .scatter then call.c else none
+  | "ye" => if carry then call.yErr else none
+  | "xe" => if carry then call.xErr else none
+  | _ => none
+
+/-- the prepared arrays besides x and y that enter the missing-data mask: those among the keys `Gen.maskArrays` read off
+the source (there are none: the source masks on `data['x']` and `data['y']` only) -/
+def extraMaskNames (call : Call) (xn yn : String) (carry : Bool) : List String :=
+  (Gen.maskArrays.filter fun k => !(k == "x" || k == "y")).filterMap (dataName call xn yn carry)
+
+/-- `not_null`: x and y combined by the source's expression, and every further array of `Gen.maskArrays` -/
+def notNull (vw : View) (bd : List String) (xs ys : List Cell) (extra : List String) : List Bool :=
+  extra.foldl (fun m n => List.zipWith (· && ·) m ((vw.flat bd n).map Cell.isFinite))
+    (List.zipWith (fun a b => Gen.maskIsBothFinite a.isFinite b.isFinite) xs ys)
+
 /-- the body of `gen_xy` for one slice: broadcast, flatten, mask on both finite, carry the rest through the mask -/
 def mkSeries (vw : View) (call : Call) (xn yn : String) (carry : Bool) (lab : Option String) : Series :=
   let extra := if carry then carriedNames call else []
   let bd := vw.bdims ([xn, yn] ++ extra)
   let xs := vw.flat bd xn
   let ys := vw.flat bd yn
-  let mask := List.zipWith (fun a b => Gen.maskIsBothFinite a.isFinite b.isFinite) xs ys
+  let mask := notNull vw bd xs ys (extraMaskNames call xn yn carry)
   let pick := fun (o : Option String) => if carry then o.map fun n => applyMask mask (vw.flat bd n) else none
   { label := lab, x := applyMask mask xs, y := applyMask mask ys,
     c := if call.kind == .scatter then pick call.c else none, ye := pick call.yErr, xe := pick call.xErr }
@@ -256,6 +294,20 @@ def legendOrColorbar (n : Nat) (legend colorbar : Option Bool) (hasC colorsAuto 
   let colorbar1 := if legend1 == some true && colorbar.isNone then some hasC else colorbar
   if legend1.isNone && colorbar1.isNone then (auto, (!auto && colorsAuto) || hasC)
   else (legend1.getD false, colorbar1.getD false)
+
+/-- one end of the colour normalisation of `calc_color_norm`: `_zmin` is the `zlims` entry if given, else the finite
+data minimum; `vmin` is replaced by `_zmin` when `defaulted` (the source's test on `vmin`) says so -/
+def limitSource (defaulted : Bool → Bool → Bool) (arg : Option LimArg) (zlim : Bool) : LimSrc :=
+  if defaulted arg.isNone ((arg.map (·.isZero)).getD false) then (if zlim then .zlim else .data)
+  else if arg.isSome then .given else .unset
+
+/-- `zlims` only counts for a numeric colour quantity (a non-numeric z coordinate is scaled on 0..1) -/
+def zlimsApply (call : Call) : Bool := call.c.isSome || !call.zstr
+
+/-- (lower, upper) end of the colour normalisation -/
+def colourLimits (call : Call) : LimSrc × LimSrc :=
+  (limitSource Gen.vminDefaulted call.vmin (call.zlimLo && zlimsApply call),
+   limitSource Gen.vmaxDefaulted call.vmax (call.zlimHi && zlimsApply call))
 
 structure Panel where
   i : Nat
@@ -329,6 +381,8 @@ structure Figure where
   panels : List (List Panel)
   useLegend : Bool
   useColorbar : Bool
+  /-- the colour normalisation of the figure (one for all panels of a grid) -/
+  limits : LimSrc × LimSrc
 deriving Repr
 
 /-- the decorated plotting function (`mpl_multi_plot`): one panel, or a grid of panels -/
@@ -336,6 +390,7 @@ def plot (ds : DS) (call : Call) : Figure :=
   let g := calcRowCol ds call.row call.col
   let ncols := (g.headD []).length
   let st := plotSingle { ds := ds } call
-  { panels := g.map fun r => r.map (panelOf ds call ncols), useLegend := st.useLegend, useColorbar := st.useColorbar }
+  { panels := g.map fun r => r.map (panelOf ds call ncols), useLegend := st.useLegend, useColorbar := st.useColorbar,
+    limits := colourLimits call }
 
 end PlotPrep
